@@ -84,12 +84,13 @@ def check(an, rep, tier):
         args.update(extra)
         I.run_function(prog.func(q), args)
         for s in I.sites:
-            if s.rule in S_RULES + ['G-div'] and s.where in wh:
+            if s.rule in S_RULES + ['G-div'] and (
+                    s.where in wh or s.where.startswith('maxvol.')):
                 st = s.status
                 det = s.detail
                 if s.rule == 'G-div' and st == 'unknown':
-                    fn_s = prog.func(s.where) if s.where in (
-                        'maxvol.maxvol', 'maxvol.maxvol_rect') else None
+                    fn_s = prog.func(s.where) \
+                        if s.where.startswith('maxvol.') else None
                     acc = _accepted_den(prog, fn_s, s.node) if fn_s else None
                     if acc:
                         st, det = 'ok', 'accepted: ' + acc
@@ -168,34 +169,58 @@ def check(an, rep, tier):
                 % (nn, rr, dmin, dmax, 'rejected' if bad else 'accepted'),
                 'ok' if got == bad else 'violation',
                 '' if got == bad else 'wrong rejection behaviour')
-    # --- _maxvol: clamps precede the dispatch, dispatch exhaustive
-    fn = prog.func('utils._maxvol')
-    mod = fn.module
-    body = paths.linear(fn.node.body)
-    ifs = [s for s in body if isinstance(s, ast.If)]
-    clamps = [s for s in body if isinstance(s, ast.Assign) and
-              isinstance(s.value, ast.Call) and
-              isinstance(s.value.func, ast.Name) and s.value.func.id == 'min'
-              and isinstance(s.targets[0], ast.Name) and
-              s.targets[0].id in ('dr_max', 'dr_min')]
-    ok = len(ifs) == 1 and len(clamps) == 2 and \
-        all(c.lineno < ifs[0].lineno for c in clamps) and \
-        clamps[0].targets[0].id == 'dr_max' and bool(ifs[0].orelse)
-    if ok:
-        # final else present
-        cur = ifs[0]
-        while cur.orelse and len(cur.orelse) == 1 and \
-                isinstance(cur.orelse[0], ast.If):
-            cur = cur.orelse[0]
-        ok = bool(cur.orelse)
-    rep.add('P-dispatch', 'utils._maxvol', 'dr_max, dr_min clamped before an '
-            'exhaustive if / elif / else dispatch', 'ok' if ok else 'violation',
-            '' if ok else 'the clamps must precede the dispatch (dr_max first) '
-            'and the dispatch must end in an else branch')
+    # --- _maxvol: clamps precede the dispatch, dispatch exhaustive.  Decided
+    # on the abstract run with literal shapes and limits: which routine is
+    # called, and with which (clamped) limits, is read from the call log.
+    def _c(v):
+        return v.c if v is not None and v.has_const() else None
+    for nn, rr, dmin, dmax in ((3, 3, 0, 0), (2, 3, 1, 1), (5, 2, 0, 0),
+                               (5, 2, 1, 2), (5, 2, 4, 5), (5, 2, 2, 1),
+                               (4, 3, 0, 5), (6, 2, 0, 3)):
+        I_ = interp.Interp(prog, dict(o))
+        I_.run_function(prog.func('utils._maxvol'),
+                        {'A': ARR((Poly.const(nn), Poly.const(rr)), 'f'),
+                         'dr_min': INT(dmin), 'dr_max': INT(dmax)})
+        calls = [(q_, a_) for (q_, a_, _), m_ in zip(I_.call_log,
+                                                     I_.call_meta)
+                 if q_ in ('maxvol.maxvol', 'maxvol.maxvol_rect') and
+                 not (m_['caller'] or '').startswith('maxvol.')]
+        if nn <= rr:
+            want = None
+        else:
+            cmax = min(dmax, nn - rr)
+            cmin = min(dmin, cmax)
+            want = ('maxvol.maxvol',) if cmax == 0 else \
+                ('maxvol.maxvol_rect', cmin, cmax)
+        if want is None:
+            got = None if not calls else (calls[0][0],)
+        elif not calls:
+            got = ()
+        else:
+            q_, a_ = calls[0]
+            got = (q_,) if q_ == 'maxvol.maxvol' else \
+                (q_, _c(a_.get('dr_min')), _c(a_.get('dr_max')))
+        if got == want and len(calls) <= 1:
+            st_, det_ = 'ok', ''
+        elif got is not None and None in got:
+            st_, det_ = 'unknown', 'limits not constant in the run: %r' % (got,)
+        elif I_.raises and not I_.entry_returns:
+            st_, det_ = 'violation', 'rejected with %s' % (I_.raises[:1],)
+        else:
+            st_, det_ = 'violation', 'dispatch %r, expected %r: dr_max is ' \
+                'clamped to n - r first, then dr_min to dr_max; n <= r ' \
+                'returns the identity selection, dr_max == 0 the square ' \
+                'maxvol, anything else maxvol_rect with the clamped limits' \
+                % (got, want)
+        rep.add('P-dispatch', 'utils._maxvol', '%dx%d, dr_min=%d, dr_max=%d'
+                % (nn, rr, dmin, dmax), st_, det_,
+                line=prog.func('utils._maxvol').node.lineno,
+                file=prog.func('utils._maxvol').module.path)
     # --- P-pair in maxvol_rect
     fn = prog.func('maxvol.maxvol_rect')
     mod = fn.module
-    loops = [n for n in ast.walk(fn.node) if isinstance(n, ast.For)]
+    loops = [n for n in ast.walk(fn.node)
+             if isinstance(n, (ast.For, ast.While))]
     okp = False
     why = 'loop not found'
     fname = sname = None
@@ -206,14 +231,19 @@ def check(an, rep, tier):
         #   X[..] = i            -> selection store
         #   S[i] = 0             -> masking store
         iname = None
-        lbody = paths.linear(lp.body)
+        lbody = paths.flat(lp.body)
         for st in lbody:
             if isinstance(st, ast.Assign) and \
                     isinstance(st.targets[0], ast.Name) and \
-                    isinstance(st.value, ast.Call) and \
-                    (prog.dotted(st.value.func) or '').endswith('argmax') and \
-                    st.value.args and isinstance(st.value.args[0], ast.Name):
-                iname, fname = st.targets[0].id, st.value.args[0].id
+                    isinstance(st.value, ast.Call):
+                fv = st.value
+                if (prog.dotted(fv.func) or '').endswith('argmax') and \
+                        fv.args and isinstance(fv.args[0], ast.Name):
+                    iname, fname = st.targets[0].id, fv.args[0].id
+                elif isinstance(fv.func, ast.Attribute) and \
+                        fv.func.attr == 'argmax' and \
+                        isinstance(fv.func.value, ast.Name) and not fv.args:
+                    iname, fname = st.targets[0].id, fv.func.value.id
         if iname is None:
             continue
         sel = mask = remask = None
@@ -259,15 +289,13 @@ def check(an, rep, tier):
     from ..rules_formula import Rat, rat_eval
     from .. import roles as _roles
     for lp in loops:
-        lb_ = paths.linear(lp.body)
+        lb_ = paths.flat(lp.body)
         vname = lname = None
         for st in lb_:
             if isinstance(st, ast.Assign) and \
                     isinstance(st.targets[0], ast.Name) and \
-                    isinstance(st.value, ast.Call) and \
-                    isinstance(st.value.func, ast.Attribute) and \
-                    st.value.func.attr == 'dot' and \
-                    isinstance(st.value.func.value, ast.Name):
+                    _roles.matvec(prog, st.value) is not None and \
+                    isinstance(_roles.matvec(prog, st.value)[0], ast.Name):
                 vname = st.targets[0].id
             if isinstance(st, ast.Assign) and \
                     isinstance(st.targets[0], ast.Name) and vname and \
@@ -313,7 +341,8 @@ def check(an, rep, tier):
             if isinstance(st, ast.If) and any(isinstance(b, ast.Break)
                                               for b in st.body):
                 stop_found = True
-                names = [x.id for x in ast.walk(st.test)
+                names = [x.id for x in ast.walk(_roles.inline(fn.node,
+                                                              st.test))
                          if isinstance(x, ast.Name)]
                 e_par = fn.params[1] if len(fn.params) > 1 else 'e'
                 other_par = [p_ for p_ in fn.params[2:] if p_ in names and
@@ -363,4 +392,5 @@ def check(an, rep, tier):
     rep.floor('P-pair', 2, 'select / mask pairing')
     rep.floor('T-downdate', 1, 'row-norm downdate')
     rep.floor('G-div', 2, 'guarded divisions')
+    rep.floor('P-dispatch', 8, 'clamp-then-dispatch grid')
     rep.floor('S-solve', 2, 'triangular solves')
